@@ -346,6 +346,9 @@ partial def loop (h : IO.FS.Stream) (out : IO.FS.Stream) (ds : DState) : IO Unit
         out.putStrLn s!"VIOL C01 volume-mismatch {fmtViol v}"
       if !amountsOk st then
         out.putStrLn s!"VIOL C02 negative-or-overflow"
+      -- C07: the state invariant under which the transaction layer is proved panic-free (hypothesis of C07_deliver_no_panic…)
+      for c in txInvBroken ds.params st do
+        out.putStrLn s!"VIOL C07 tx-invariant-broken {c}"
       if kind == "restart" then
         -- the export re-read from disk by the restarted process against the export of the last commit (`ds.dump` before this delta)
         for c in chs do
